@@ -217,7 +217,8 @@ H1_RESPONSES = {
 def h_h2_to_h1(X, nfields):
     pname = X.choose("pseudo", list(PSEUDO))
     block = list(PSEUDO[pname])
-    k = X.choose("nfields", (nfields if pname in PSEUDO_VALID_BASE else min(nfields, 1)) + 1)
+    kmax = nfields if pname == "complete" else (min(nfields, 2) if pname in PSEUDO_VALID_BASE else 1)
+    k = X.choose("nfields", kmax + 1)
     fields = [X.choose("field", FIELDS) for _ in range(k)]
     block += fields
     body = X.choose("body", BODIES)
@@ -272,6 +273,9 @@ def h_h2_to_h1(X, nfields):
     exp = [(n.lower(), v) for n, v in fields if n.lower() not in (b"host", b"cookie")]
     cookies = [v for n, v in fields if n.lower() == b"cookie"]
     got_rest = [(n, v) for n, v in got if n not in (b"host", b"cookie")]
+    if not any(n in (b"transfer-encoding", b"content-length") for n, _ in exp):
+        # a translator may have to add HTTP/1 message framing for the body (that the framing is right is checked through the body)
+        got_rest = [(n, v) for n, v in got_rest if n not in (b"transfer-encoding", b"content-length")]
     X.check(got_rest == exp, "C06/h2-to-h1/field-list-changed", f"{what}: fields {got_rest} != {exp}")
     got_cookie = [v for n, v in got if n == b"cookie"]
     X.check(got_cookie == ([b"; ".join(cookies)] if cookies else []), "C06/h2-to-h1/cookies-not-joined", f"{what}: cookie fields upstream {got_cookie}, sent {cookies}")
@@ -421,8 +425,8 @@ def obligations(tier):
         Smt("name-regex", _build_regex_queries, bounds="all byte strings; `_valid_header_name` lifted from the current source, `$` interpreted as re.match does",
             encoded=["mitmproxy.net.http.validate:validate_headers"]),
         Symx("h2-to-h1", lambda X: h_h2_to_h1(X, n),
-             bounds=f"{len(PSEUDO)} pseudo-header sets x <= {n} fields from a {len(FIELDS)}-entry alphabet-partition menu (<= 1 field when the pseudo-header set is itself "
-                    f"a malformed variant) x body/no body (x trailers for the plain block) x {len(H1_RESPONSES)} HTTP/1 answers",
+             bounds=f"{len(PSEUDO)} pseudo-header sets x <= {n} fields from a {len(FIELDS)}-entry alphabet-partition menu (<= 2 for the GET / explicit-port variants, <= 1 field when the "
+                    f"pseudo-header set is itself a malformed variant) x body/no body (x trailers for the plain block) x {len(H1_RESPONSES)} HTTP/1 answers",
              encoded=ENCODED, must_reach=["forwarded", "rejected", "answered", "cookies-joined"], parallel_depth=3),
         Symx("h1-to-h2", lambda X: h_h1_to_h2(X, n1),
              bounds=f"{len(H1_REQ_SHAPES)} HTTP/1 request shapes x <= {n1} fields from a {len(H1_LINES)}-entry menu x {len(H2_RESPONSES)} h2 answers (incl. trailers)",
